@@ -616,6 +616,12 @@ def run_shard(spec) -> Result:
                 ops3 = gen_history(r, keys, r.randrange(40, 110), cfg3, redundant=False, norelease=r.random() < 0.7)
                 jobs.append((dict(cfg3, redundant=False, rust_only=True), ops3, keys))
             if r.random() < 0.25:
+                # Rust only: the initial strobe state arrives inside a snapshot loaded into a fresh matrix (other default
+                # polarity), and no KOL/KOH write follows before the first keys go down
+                cfg4 = dict(cfg, strobe_via_snapshot=True)
+                ops4 = gen_history(r, keys, r.randrange(30, 90), cfg4, redundant=False, norelease=r.random() < 0.45)
+                jobs.append((dict(cfg4, redundant=False, rust_only=True), ops4, keys))
+            if r.random() < 0.25:
                 cfg2 = dict(cfg, via_setter=True)
                 ops2 = gen_history(r, keys, r.randrange(30, 90), cfg2, redundant=False, norelease=r.random() < 0.45)
                 jobs.append((dict(cfg2, redundant=False, rust_only=True), ops2, keys))
